@@ -1,0 +1,75 @@
+//go:build verif
+
+// Replay builders: each takes the scalar inputs of a solver counterexample, constructs the real
+// objects, runs the real function and checks the property on the outcome. Used only by vcgo's
+// generated replay tests (-tags verif).
+
+package proxycore
+
+import "fmt"
+
+func verifHostsN(n int) []*Host {
+	hosts := make([]*Host, n)
+	for i := range hosts {
+		hosts[i] = &Host{Endpoint: &defaultEndpoint{addr: fmt.Sprintf("127.0.0.%d:9042", i+1)}}
+	}
+	return hosts
+}
+
+// verifReplayNext: one step of a query plan must return hosts[(offset+index) mod n].
+func verifReplayNext(offset, index uint32, n int) error {
+	if n > 1<<16 {
+		return nil // input too large to build; not a reproduction
+	}
+	hosts := verifHostsN(n)
+	p := &roundRobinQueryPlan{hosts: hosts, offset: offset, index: index}
+	got := p.Next()
+	if int(index) >= n {
+		if got != nil {
+			return fmt.Errorf("exhausted plan returned a host")
+		}
+		return nil
+	}
+	want := hosts[(uint64(offset)+uint64(index))%uint64(n)]
+	if got != want {
+		return fmt.Errorf("Next() with offset=%d index=%d over %d hosts returned %v, want %v (hosts[(offset+index) mod n])", offset, index, n, got, want)
+	}
+	// whole traversal: every host exactly once
+	p = &roundRobinQueryPlan{hosts: hosts, offset: offset, index: 0}
+	seen := map[*Host]int{}
+	for h := p.Next(); h != nil; h = p.Next() {
+		seen[h]++
+	}
+	for _, h := range hosts {
+		if seen[h] != 1 {
+			return fmt.Errorf("plan with offset=%d over %d hosts visits %v %d times", offset, n, h, seen[h])
+		}
+	}
+	return nil
+}
+
+// verifReplayNewQueryPlan: consecutive plans start at consecutive hosts.
+func verifReplayNewQueryPlan(counter uint32, n int) error {
+	if n == 0 || n > 1<<16 {
+		return nil
+	}
+	lb := NewRoundRobinLoadBalancer().(*roundRobinLoadBalancer)
+	hosts := verifHostsN(n)
+	lb.OnEvent(&BootstrapEvent{Hosts: hosts})
+	lb.index = counter
+	a := lb.NewQueryPlan().Next()
+	b := lb.NewQueryPlan().Next()
+	ia, ib := -1, -1
+	for i, h := range hosts {
+		if h == a {
+			ia = i
+		}
+		if h == b {
+			ib = i
+		}
+	}
+	if ib != (ia+1)%n {
+		return fmt.Errorf("with counter=%d and %d hosts, consecutive plans start at hosts %d and %d", counter, n, ia, ib)
+	}
+	return nil
+}
